@@ -54,6 +54,9 @@ trait PF: Copy + Send + Sync + 'static {
     fn f_xsquare(self, n: u32) -> Self;
     fn f_half(self) -> Self;
     fn f_mulk(self) -> Vec<(u32, Self)>;
+    // which optional operations the type has: decided WITHOUT running library code (a library function that hangs or
+    // panics on a constant must not take the whole case registry down)
+    const HAS_MUL_SMALL: bool = false; const HAS_SQRT: bool = true; const HAS_SQRT_EXT: bool = false; const HAS_SPLIT128: bool = false; const HAS_SPLIT_BYTES: bool = false;
     fn f_mul_small(self, _k: u32) -> Option<(u32, Self)> { None }
     fn f_invert(self) -> Option<Self> { None }
     fn f_iszero(self) -> u32;
@@ -118,6 +121,7 @@ impl<const M0: u64, const M1: u64, const M2: u64, const M3: u64> PF for ModInt25
         [Self::w64le(l[0], l[1], l[2], l[3]), Self::w64be(l[3], l[2], l[1], l[0]), Self::from_w64le(l[0], l[1], l[2], l[3]), Self::from_w64be(l[3], l[2], l[1], l[0])]
     }
     fn f_mulk(self) -> Vec<(u32, Self)> { vec![(2, self.mul2()), (3, self.mul3()), (4, self.mul4()), (8, self.mul8()), (16, self.mul16()), (32, self.mul32())] }
+    const HAS_SQRT: bool = (M0 & 3) == 3 || (M0 & 7) == 5; const HAS_SPLIT128: bool = true;
     fn f_sqrt(self) -> Option<(Self, u32)> { if (M0 & 3) == 3 || (M0 & 7) == 5 { Some(self.sqrt()) } else { None } }
     fn f_decode32(b: &[u8]) -> Option<(Self, u32)> { Some(Self::decode32(b)) }
     fn f_set_decode32(&mut self, b: &[u8]) -> Option<u32> { Some(self.set_decode32(b)) }
@@ -134,6 +138,7 @@ impl PF for GFsecp256k1 {
         [Self::w64le(l[0], l[1], l[2], l[3]), Self::w64be(l[3], l[2], l[1], l[0]), Self::from_w64le(l[0], l[1], l[2], l[3]), Self::from_w64be(l[3], l[2], l[1], l[0])]
     }
     fn f_mulk(self) -> Vec<(u32, Self)> { vec![(2, self.mul2()), (3, self.mul3()), (4, self.mul4()), (8, self.mul8()), (16, self.mul16()), (32, self.mul32()), (21, self.mul21())] }
+    const HAS_MUL_SMALL: bool = true;
     fn f_mul_small(self, k: u32) -> Option<(u32, Self)> { let x = k as u16; Some((x as u32, self.mul_u16(x))) }
     fn f_sqrt(self) -> Option<(Self, u32)> { Some(self.sqrt()) }
     fn f_decode32(b: &[u8]) -> Option<(Self, u32)> { Some(Self::decode32(b)) }
@@ -149,6 +154,7 @@ impl PF for GF448 {
     fn enc(&self) -> Vec<u8> { self.encode().to_vec() }
     fn w64(l: &[u64]) -> [Self; 4] { [Self::w64le(arr7(l)), Self::w64be(rev7(l)), Self::from_w64le(arr7(l)), Self::from_w64be(rev7(l))] }
     fn f_mulk(self) -> Vec<(u32, Self)> { vec![(2, self.mul2()), (4, self.mul4()), (8, self.mul8()), (16, self.mul16()), (32, self.mul32())] }
+    const HAS_MUL_SMALL: bool = true; const HAS_SQRT_EXT: bool = true;
     fn f_mul_small(self, k: u32) -> Option<(u32, Self)> { Some((k, self.mul_small(k))) }
     fn f_sqrt(self) -> Option<(Self, u32)> { Some(self.sqrt()) }
     fn f_sqrt_ext(self) -> Option<(Self, u32)> { Some(self.sqrt_ext()) }
@@ -165,6 +171,7 @@ impl PF for Ed448Scalar {
     fn enc(&self) -> Vec<u8> { self.encode().to_vec() }
     fn w64(l: &[u64]) -> [Self; 4] { [Self::w64le(arr7(l)), Self::w64be(rev7(l)), Self::from_w64le(arr7(l)), Self::from_w64be(rev7(l))] }
     fn f_mulk(self) -> Vec<(u32, Self)> { vec![(2, self.mul2()), (3, self.mul3()), (4, self.mul4()), (8, self.mul8()), (16, self.mul16()), (32, self.mul32())] }
+    const HAS_MUL_SMALL: bool = true; const HAS_SQRT_EXT: bool = true; const HAS_SPLIT_BYTES: bool = true;
     fn f_mul_small(self, k: u32) -> Option<(u32, Self)> { Some((k, self.mul_small(k))) }
     fn f_invert(self) -> Option<Self> { Some(self.invert()) }
     fn f_sqrt(self) -> Option<(Self, u32)> { Some(self.sqrt()) }
@@ -580,7 +587,7 @@ fn reg_pf<F: PF>(v: &mut Vec<Case>, prefix: &str, tag: &str) {
         let a = F::mk(o[0]); let x = fe(&a);
         for (k, r) in a.f_mulk() { all_eq(c, &[r], &((&x * BigInt::from(k)) % &c.q), &format!("mul{}", k))?; }
         Ok(()) });
-    if F::consts()[0].f_mul_small(1).is_some() {
+    if F::HAS_MUL_SMALL {
         case!("mul_small", "fe(mul_small(a,k)) == k*fe(a) mod q, every 32-bit k (mul_u16: every 16-bit k)", vec![el.clone(), Op::U32], |o, c| {
             let a = F::mk(o[0]); let (k, r) = a.f_mul_small(u32of(o[1])).unwrap();
             all_eq(c, &[r], &((fe(&a) * BigInt::from(k)) % &c.q), &format!("mul_small({:#x})", k)) });
@@ -685,7 +692,7 @@ fn reg_pf<F: PF>(v: &mut Vec<Case>, prefix: &str, tag: &str) {
         let e = modpow(&fe(&a), &((&c.q - 1) / 2), &c.q);
         let want = if e.sign() == Sign::NoSign { 0 } else if e == BigInt::from(1) { 1 } else { -1 };
         chk(r == want, || format!("legendre: got {} want {}", r, want)) });
-    if F::consts()[1].f_sqrt().is_some() {
+    if F::HAS_SQRT {
         case!("sqrt", "sqrt: status all-ones iff a is a square; root has even lsb and squares to a; else (zero, 0)", vec![el.clone()], |o, c| {
             let a = F::mk(o[0]); let x = fe(&a);
             let (y, r) = a.f_sqrt().unwrap();
@@ -697,7 +704,7 @@ fn reg_pf<F: PF>(v: &mut Vec<Case>, prefix: &str, tag: &str) {
                 chk(r == 0 && yv.sign() == Sign::NoSign, || format!("sqrt(nonQR): r={:08x} y {}", r, hex(&y.enc())))
             } });
     }
-    if F::consts()[1].f_sqrt_ext().is_some() {
+    if F::HAS_SQRT_EXT {
         case!("sqrt_ext", "sqrt_ext (q = 3 mod 4): (sqrt(a), all-ones) if a is a square else (sqrt(-a), 0); root has even lsb", vec![el.clone()], |o, c| {
             let a = F::mk(o[0]); let x = fe(&a);
             let (y, r) = a.f_sqrt_ext().unwrap();
@@ -709,7 +716,7 @@ fn reg_pf<F: PF>(v: &mut Vec<Case>, prefix: &str, tag: &str) {
                 chk(r == 0 && y2 == emod(&-x, &c.q) && !yv.bit(0), || format!("sqrt_ext(nonQR): r={:08x} y {}", r, hex(&y.enc())))
             } });
     }
-    if F::consts()[0].f_split128().is_some() {
+    if F::HAS_SPLIT128 {
         let gd: Guard<F, (i128, i128)> = Guard::new(|a: F| a.f_split128().unwrap());
         case!("split", "split_vartime: k*c1' == c0' mod n, c1' != 0, (c0',c1') = (c0 + a*2^128, c1 + b*2^128) with |a|,|b| <= 0/1/2 per modulus size; zero -> (0,1); no panic", vec![el.clone()], |o, c| {
             let a = F::mk(o[0]); let k = fe(&a);
@@ -724,7 +731,7 @@ fn reg_pf<F: PF>(v: &mut Vec<Case>, prefix: &str, tag: &str) {
             } }
             Err(format!("split: k={:x} c0={} c1={} (no a,b in -{}..={} fits)", k, c0, c1, rg, rg)) });
     }
-    if F::consts()[0].f_split_bytes().is_some() {
+    if F::HAS_SPLIT_BYTES {
         let gd: Guard<F, (Vec<u8>, Vec<u8>)> = Guard::new(|a: F| a.f_split_bytes().unwrap());
         case!("split", "split_vartime (gfgen): k*c1 == c0 mod p, c1 != 0 mod p, 3*c^4 < 4*p^2 for both; no panic", vec![el.clone()], |o, c| {
             let a = F::mk(o[0]); let k = fe(&a);
